@@ -98,6 +98,15 @@ CHECKS += [
     },
 ]
 
+CHECKS += [
+    {
+        "property_id": "C06", "engine": "symx", "category": "model_checking",
+        "technique": "bounded symbolic execution of the Source statistics and of annotated_state_pdist_calc with symbolic brightness/purity/indistinguishability + z3 (polynomial identities after clearing denominators; sign regions of the coefficients explored by forks)",
+        "text": "For all brightness in [0,1], purity in (0.5,1], indistinguishability in [0,1] (through a parametrisation that keeps the library's square roots rational): the input statistics equal an independent per-photon enumeration over the six emission outcomes compared as label-partition classes, and are normalised; the single-photon table sums to one, has g2 = 1 - purity, reduces to Bernoulli(brightness) / the ideal source / no indistinguishable component in the three limits; HOM coincidence on a 50:50 beam splitter is nu^2(1-I)/2; the annotated-state mixing equals the mixture of products of group distributions for arbitrary symbolic per-input distributions; end-to-end sampler distributions are non-negative and normalised; a probability threshold renormalises the survivors.",
+        "design_ref": "DESIGN.md section 4 C06", "note": SYMX_NOTE + " The six coefficient formulas themselves are pinned only through the listed invariants.",
+    },
+]
+
 _TODO = "check not built yet in this round; see DESIGN.md section 4 for the plan"
 NOT_APPLICABLE = [
     {"property_id": f"C{i:02d}", "reason": _TODO} for i in range(2, 20) if f"C{i:02d}" not in {c["property_id"] for c in CHECKS}
